@@ -45,9 +45,10 @@ enum Probe
 	P_BUDGET_1E6,
 	P_LONG_HISTORY,
 	P_ABORTED,
+	P_FAR_NARROW,
 	P_NPROBES
 };
-const char* PROBE_NAMES[] = {"integrator_calls", "integrand_evaluations", "method_plain_mc", "method_vegas", "method_miser", "frontend_integrate_2d", "frontend_integrate_3d", "frontend_integrate_3d_spherical", "integrand_runs_a_nested_integration", "vegas_stratification_off_branch(2ng>=50)", "miser_call_with_mostly_flat_zero_integrand", "narrow_peak_underflows_to_zero", "history_vs_pristine_process_comparisons", "repeat_inside_history_comparisons", "accuracy_checks_on_regular_integrands", "accuracy_escalations", "ensemble_bias_tests", "constant_integrand_checks", "fault_entropy_edge_seed(0,1,2^32-1,repeat)", "history_changes_dimension_before_compared_call", "budget_1e5_or_more", "budget_1e6", "call_number_20_or_later_in_its_process", "fault_integrand_throws_mid_call"};
+const char* PROBE_NAMES[] = {"integrator_calls", "integrand_evaluations", "method_plain_mc", "method_vegas", "method_miser", "frontend_integrate_2d", "frontend_integrate_3d", "frontend_integrate_3d_spherical", "integrand_runs_a_nested_integration", "vegas_stratification_off_branch(2ng>=50)", "miser_call_with_mostly_flat_zero_integrand", "narrow_peak_underflows_to_zero", "history_vs_pristine_process_comparisons", "repeat_inside_history_comparisons", "accuracy_checks_on_regular_integrands", "accuracy_escalations", "ensemble_bias_tests", "constant_integrand_checks", "fault_entropy_edge_seed(0,1,2^32-1,repeat)", "history_changes_dimension_before_compared_call", "budget_1e5_or_more", "budget_1e6", "call_number_20_or_later_in_its_process", "fault_integrand_throws_mid_call", "region_axis_1e4_or_more_widths_away_from_the_origin"};
 
 enum Metric
 {
@@ -252,6 +253,19 @@ struct Integrand
 		else
 			sup_dev = std::fabs(scale) * pabs + std::fabs((double) mean);
 		smooth = c.family == 1 || c.family == 2 || c.family == 4;
+		// Gaussians peaked off-centre are in the property's list as well. Narrow ones are judged in one and two dimensions and down
+		// to a width of 1 % of the axis; below that, or in more dimensions, a recursive stratifier may legitimately do worse than
+		// plain sampling with half its budget, which is the yardstick used here.
+		if(c.family == 3 && c.ndim <= 2)
+		{
+			smooth = true;
+			// (axes given in descending order are left out: Miser then compares sample coordinates with the mid-point the wrong
+			// way round, hands the larger share of the budget to the quieter half and is - still without bias - several times
+			// noisier than plain sampling on a narrow peak; the property does not say whose standard error counts there.)
+			for(int j = 0; j < c.ndim; j++)
+				if(!(c.par[4 * j + 1] >= 0.01) || !(c.hi[j] > c.lo[j]))
+					smooth = false;
+		}
 		if(c.family == 6)
 			nested_method = (c.par[0] != 0.0) ? 1 : 0;
 		if(c.frontend == 4)
@@ -495,6 +509,13 @@ struct Exec
 			ctx.probe(P_BUDGET_1E5);
 		if(c.ncalls >= 1000000)
 			ctx.probe(P_BUDGET_1E6);
+		if(c.frontend != 4)
+			for(size_t j = 0; j < c.lo.size(); j++)
+				if(std::fabs(c.hi[j] - c.lo[j]) * 1e4 <= std::min(std::fabs(c.lo[j]), std::fabs(c.hi[j])))
+				{
+					ctx.probe(P_FAR_NARROW);
+					break;
+				}
 		if(c.seed == 0 || c.seed == 1 || c.seed == 0xffffffffu)
 			ctx.probe(P_SEED_EDGE);
 		if(c.method == 1)
@@ -623,12 +644,13 @@ struct Exec
 		for(size_t k = 0; k < n; k++)
 		{
 			const CallSpec& c = specs[k];
+			ctx.on_thread(plan.ops[op_index[k]].t, [&] {
 			ctx.begin_op(op_index[k]);
 			ctx.log.u64(k);
 			if(c.ensemble)
 			{
 				run_ensemble(c);
-				continue;
+				return;
 			}
 			if(k >= 19)
 				ctx.probe(P_LONG_HISTORY);
@@ -668,6 +690,7 @@ struct Exec
 				if(!same_bits(s.value, results[k].value) || s.evals != results[k].evals || s.pthash != results[k].pthash)
 					ctx.violate(std::string("C14:history:differs-from-pristine:") + (c.method == 0 ? "plain" : c.method == 1 ? "vegas" : "miser"), fmt("after %zu earlier call(s) the result is %.17g (%llu evaluations, sample hash %016llx); alone in a pristine process with the same seed it is %.17g (%llu evaluations, sample hash %016llx); %s", k, results[k].value, (unsigned long long) results[k].evals, (unsigned long long) results[k].pthash, s.value, (unsigned long long) s.evals, (unsigned long long) s.pthash, describe(c).c_str()));
 			}
+			});
 		}
 	}
 
@@ -758,6 +781,28 @@ struct Gen
 				hi = lo + 1;
 			c.lo.push_back(lo);
 			c.hi.push_back(hi);
+		}
+		if(c.frontend != 4 && r.chance(0.08))
+		{
+			// rare-condition bias: a narrow axis far from the origin (width 1e-3..1e-2 at |offset| 300..1000, i.e. 3e4..1e6 widths
+			// away), low dimension, and a budget that lets recursive methods bisect it many times. Absolute and relative scales of
+			// the coordinates then differ by many orders of magnitude, inside the stated ranges of offsets and widths.
+			if(c.ndim > 2)
+			{
+				c.ndim	   = (int) r.irange(1, 2);
+				c.frontend = (c.ndim == 2 && r.chance(0.5)) ? 2 : 0;
+				c.lo.resize(c.ndim);
+				c.hi.resize(c.ndim);
+			}
+			int j	 = (int) r.below((uint64_t) c.ndim);
+			double w = r.logrange(1e-3, 1e-2), off = r.sign() * r.range(300, 1000);
+			c.lo[j] = off, c.hi[j] = off + w;
+			if(r.chance(0.6))
+				c.method = 2;
+			c.ncalls = (int) r.pick(thorough ? std::vector<long long>{10000, 100000, 300000, 1000000, 1000000} : std::vector<long long>{10000, 30000, 100000, 300000, 300000, 1000000});
+			if(c.method == 1 && c.ncalls > 100000)
+				c.ncalls = 100000;
+			c.family = (int) r.pick(std::vector<long long>{0, 2, 3, 3, 1});
 		}
 		if(c.frontend != 4 && r.chance(0.15))
 		{
